@@ -60,3 +60,22 @@ H_ENTRY(h_mpi_decode) {
   if (vfh_exc == 0) vf_assert(r <= in.size(), "consumed length is within the input");
   H_END();
 }
+
+// the top-level packet parser: header + dispatch to every PacketDecodeTagN
+H_ENTRY(h_packet_decode) {
+  tmcg_openpgp_octets_t in, cur;
+#ifdef H_TAGBYTE
+  in.push_back((tmcg_openpgp_byte_t)H_TAGBYTE);          // slice: the packet tag octet is fixed, the rest is symbolic
+  { size_t n = vfh_len(H_MAXLEN); for (size_t i = 1; i < n; ++i) in.push_back(vf_nondet_u8()); }
+#else
+  vfh_bytes(in, H_MAXLEN);
+#endif
+  tmcg_openpgp_packet_ctx_t ctx;
+  std::vector<gcry_mpi_t> qual, xq, v_i; std::vector<std::string> capl; std::vector< std::vector<gcry_mpi_t> > c_ik;
+  tmcg_openpgp_notations_t nots; tmcg_openpgp_multiple_octets_t emb, rfp;
+  size_t before = in.size();
+  tmcg_openpgp_byte_t r = 0; H_TRY(r = PGP::PacketDecode(in, 0, ctx, cur, qual, xq, capl, v_i, c_ik, nots, emb, rfp));
+  vf_assert(vfh_exc == 0 || vfh_exc == 1, "only standard exceptions may leave PacketDecode");
+  if (vfh_exc == 0 && r != 0 && r != 0xFA && r != 0xFB && r != 0xFC && r != 0xFD && r != 0xFE) vf_assert(in.size() < before && cur.size() <= before, "a decoded packet is consumed from the input");
+  H_END();
+}
